@@ -199,7 +199,13 @@ fn check_dependence(role: &str, what: &str, base: &Draws, pert: &Draws, first_ch
 }
 
 fn fs_case<P: G>(cfg: Cfg) -> Box<dyn Case> {
-    case(format!("{}/{}", P::NAME, cfg.key()), move |_v| {
+    fs_case_variant::<P>(cfg, false)
+}
+
+/// `identity_first`: the first commitment of the aggregate is the identity element (value 0, all-zero blinding factors);
+/// everything after it is still statement data every challenge depends on
+fn fs_case_variant<P: G>(cfg: Cfg, identity_first: bool) -> Box<dyn Case> {
+    case(format!("{}/{}{}", P::NAME, cfg.key(), if identity_first { "/identity-commitment-first" } else { "" }), move |_v| {
         fg::clear_intern();
         let mut res = CaseResult::new("explored");
         let ctx = contexts()[4]; // label ctx-b with a pre-absorbed message
@@ -212,6 +218,11 @@ fn fs_case<P: G>(cfg: Cfg) -> Box<dyn Case> {
         }
         if wit.values[0] >= 1 {
             wit.promises[0] = Some(wit.values[0] / 2);
+        }
+        if identity_first {
+            wit.values[0] = 0;
+            wit.promises[0] = None;
+            wit.blindings[0] = vec![Scalar::ZERO; cfg.d];
         }
         let built = build_cached::<P>(&cfg, &wit).honest();
         let k = cfg.rounds();
@@ -377,14 +388,21 @@ fn fs_case<P: G>(cfg: Cfg) -> Box<dyn Case> {
 
 /// Batch members keep their own transcript: perturbing the context of member i changes member i's challenges only
 fn batch_case<P: G>(len: usize) -> Box<dyn Case> {
-    case(format!("{}/batch-contexts/L={}", P::NAME, len), move |_v| {
+    batch_case_sizes::<P>(len, "uniform")
+}
+
+/// `sizes`: "uniform" (every member one commitment), "larger-second" / "larger-last" (one member aggregates two: the member the
+/// verifier sizes the batch by is not the first)
+fn batch_case_sizes<P: G>(len: usize, sizes: &'static str) -> Box<dyn Case> {
+    case(format!("{}/batch-contexts/L={}{}", P::NAME, len, if sizes == "uniform" { String::new() } else { format!("/{}", sizes) }), move |_v| {
         fg::clear_intern();
         let mut res = CaseResult::new("explored");
-        let cfg = Cfg::new(2, 1, 1, 1);
         let mut sts = Vec::new();
         let mut proofs = Vec::new();
         let mut ctxs = Vec::new();
         for pos in 0..len {
+            let big = (sizes == "larger-second" && pos == 1) || (sizes == "larger-last" && pos == len - 1);
+            let cfg = if big { Cfg::new(2, 2, 2, 1) } else { Cfg::new(2, 1, 1, 1) };
             let mut wit = Wit::default_for(&cfg);
             wit.values[0] = (pos % 4) as u64;
             wit.blindings[0][0] = blinding(7000 + pos, 0);
@@ -418,7 +436,30 @@ fn batch_case<P: G>(len: usize) -> Box<dyn Case> {
         let (ok, base) = run(&ctxs);
         res.executions += 1;
         if !ok {
-            res.violate("base", "all-valid batch rejected");
+            // whether an all-valid batch is accepted is C03's question; this property's is whether every member was replayed on
+            // its OWN transcript: its challenges inside the batch are the challenges it gets when verified alone
+            let mut own_transcript = true;
+            for i in 0..len.min(8) {
+                merlin::observe::start();
+                let mut ts = vec![ctxs[i].transcript()];
+                let _ = catch(|| P::verify(&mut ts, std::slice::from_ref(&sts[i]), std::slice::from_ref(&proofs[i]), VerifyAction::VerifyOnly));
+                let alone: Vec<Vec<u8>> = merlin::observe::take()
+                    .iter()
+                    .filter_map(|e| if let Op::Challenge { out, .. } = &e.op { Some(out.clone()) } else { None })
+                    .collect();
+                res.executions += 1;
+                res.validated += 1;
+                if !base[i].is_empty() && base[i] != alone {
+                    own_transcript = false;
+                    res.violate(
+                        format!("base/member{}", i),
+                        format!("inside the batch member {} draws challenges other than those it draws alone under the same context (it was replayed on another transcript)", i),
+                    );
+                }
+            }
+            if own_transcript {
+                res.outcome = "all-valid-batch-not-accepted(skipped)".into();
+            }
             return res;
         }
         for i in [0usize, 1, len / 2, len - 2, len - 1] {
@@ -457,7 +498,7 @@ pub fn run(rep: &mut Report) {
                 absorbed into the caller's transcript before each of the 3+k challenge draws contains every datum that must precede it \
                 (context label/message, H, each G_k, N, T, M, each commitment, each promise, A, L_j/R_j up to that round, A1, B); (2) \
                 functional dependence -- each single-datum perturbation through the public API changes every challenge drawn after \
-                the datum and none before; (3) context binding; batches of 3 and 300: replacing one member's context changes exactly \
+                the datum and none before; the same with the identity element as first commitment of an aggregate; (3) context binding; batches of 3 and 300 (and of 2 and 3 in which a later member is the largest): replacing one member's context changes exactly \
                 that member's challenges"
         .into();
     let tier = rep.tier;
@@ -465,10 +506,20 @@ pub fn run(rep: &mut Report) {
     for cfg in lattice(tier.thorough()) {
         cases.push(fs_case::<F>(cfg));
         cases.push(fs_case::<RistrettoPoint>(cfg));
+        if cfg.m >= 2 && (tier.thorough() || cfg.big_n() <= 64) {
+            cases.push(fs_case_variant::<F>(cfg, true));
+            cases.push(fs_case_variant::<RistrettoPoint>(cfg, true));
+        }
     }
     for len in [3usize, 300] {
         cases.push(batch_case::<F>(len));
         cases.push(batch_case::<RistrettoPoint>(len));
+    }
+    for sizes in ["larger-second", "larger-last"] {
+        for len in [2usize, 3] {
+            cases.push(batch_case_sizes::<F>(len, sizes));
+            cases.push(batch_case_sizes::<RistrettoPoint>(len, sizes));
+        }
     }
     rep.explore("C04", cases);
     rep.expect_sub_outcome("dependence-pairs-checked");
